@@ -129,7 +129,7 @@ def trace_validate_random(rng, n_events, rep):
     obs = common.run_harness(cmds)
     events = []
     for (si, b, lim), o in zip(metas, obs):
-        ev = {"ev": "de", "si": si, "bytes": b, "depth": lim["depth"], "maxseq": lim["max_seq"], "res": o.get("res")}
+        ev = {"ev": "de", "si": si, "bytes": b, "depth": lim["depth"], "maxseq": lim["max_seq"], "maxalloc": -1, "res": o.get("res")}
         if o.get("res") == "ok":
             ev["value"] = o["value"]
             ev["consumed"] = o["consumed"]
